@@ -41,6 +41,12 @@ Clause decided: "nothing the source states is lost on the way through the IR".
      backend: ``o.length`` / ``o.data_source`` / ``o.status_var`` and the like are
      never tested for truth -- ``IntLiteral(0)`` and ``.false.`` are falsy, so
      ``CHARACTER(LEN=0)`` or ``SOURCE=0`` would be dropped on regeneration.
+ R9  import attributes are not inherited from the provider: wherever a frontend
+     derives the type of an imported symbol from the providing module's symbol
+     table (``<type>.clone(imported=True, ...)``), ``use_name`` is passed
+     explicitly (the local rename, or ``None``) -- the provider's own ``use_name``
+     records how *it* obtained the symbol; copied along, the regenerated ``USE``
+     statement renames the symbol to a name the provider does not export.
 Not decided: that a consumed operand is rendered correctly beyond R4 (C06 covers
 expression printing in general), run-time equality.
 """
@@ -428,9 +434,29 @@ def run_r678(ctx):
         else:
             ctx.judge('R8', inst, facts={'attributes': sorted({u.attr for u in uses})})
     ctx.floor('R8', 'handlers reading expression-valued attributes', n8, 2)
+    ctx.rule('R9', 'frontends: every <type>.clone(imported=True, ...) passes use_name= explicitly')
+    n9 = 0
+    for rel in ('loki/frontend/fparser.py', 'loki/frontend/omni.py'):
+        mod = m.module_by_path(rel)
+        for c in ast.walk(mod.tree):
+            if isinstance(c, ast.Call) and isinstance(c.func, ast.Attribute) and c.func.attr == 'clone' \
+                    and any(k.arg == 'imported' and isinstance(k.value, ast.Constant) and k.value.value is True for k in c.keywords):
+                n9 += 1
+                inst = f'{rel}:{ast.unparse(c)[:70]}'
+                if any(k.arg == 'use_name' for k in c.keywords):
+                    ctx.judge('R9', inst, nontrivial=False)
+                else:
+                    ctx.violation('R9', f'{rel.rsplit("/", 1)[-1]}:imported-clone-inherits-use_name', f'{rel}:{c.lineno}',
+                                  f'`{ast.unparse(c)[:90]}` copies the attributes of the providing module\'s symbol including its `use_name`: if the '
+                                  f'provider itself imported the symbol under a rename (use a, only: x => y), the importing unit is regenerated as '
+                                  f'`USE provider, ONLY: x => y`, which binds x to a different entity or does not compile', instance=inst)
+    ctx.floor('R9', 'imported-type clones in the frontends', n9, 8)
 
 
 MUTANTS = [
+    Mutant('imported-clone-inherits-use-name', 'loki/frontend/fparser.py',
+           "                        scope.symbol_attrs[s.name] = _type.clone(\n                            imported=True, module=module, use_name=None\n                        )",
+           "                        scope.symbol_attrs[s.name] = _type.clone(imported=True, module=module)", expect=('R9', 'inherits-use_name')),
     Mutant('starred-bodies', 'loki/backend/fgen.py', "        bodies = self.visit_all((*o.bodies, o.else_body), **kwargs)", "        bodies = self.visit_all(*o.bodies, o.else_body, **kwargs)",
            count=2, expect=('R6', 'starred-visit_all')),
     Mutant('handler-returns-update', 'loki/frontend/util.py', "        if len(symbols) < len(o.symbols):\n            o._update(symbols=symbols)\n        return o",
